@@ -11,6 +11,7 @@
         conv = o<val> | e<Enum>
     ctor <id> <qn> <allowsText01> <text: - | tid:nonempty01> <cdata: - | cid> <parent: - | pid:allowed01>
          <nreq> <req>… <nattrs> <attr>…      attr = s:<known01><tuple01><allowed01>:<key>:<conv> | n:<key>:<conv> | r:<key>:<val>
+    gcopy <new> <src> | gkids <p> <c> | gpar <c> <p>      (pointer surgery by the caller: record copy, strike from child list, set parent)
     snap
 
   Answers: `ok` / `err <Enum>`; `snap` answers `ok ` + one `id:kind:parent:prev:next:[kids]:{attrs}` per created id.
@@ -175,6 +176,20 @@ def handle (st : St) (line : String) : St × String :=
     match e.toNat?, bool01 k, bool01 t, bool01 a, key.toNat? with
     | some e, some k, some t, some a, some key => exec st [] (step (.removeAttribute e k t a key))
     | _, _, _, _, _ => bad
+  -- states reached by a caller's own pointer surgery (not by any modelled method): a record copy under a new id,
+  -- a child struck from a child list by hand, a parent pointer assigned by hand
+  | ["gcopy", i, s] =>
+    match i.toNat?, s.toNat? with
+    | some i, some s => exec st [i] (upd fun h => h.set i (h s))
+    | _, _ => bad
+  | ["gkids", p, c] =>
+    match p.toNat?, c.toNat? with
+    | some p, some c => exec st [] (upd fun h => setKids h p ((h p).kids.erase c))
+    | _, _ => bad
+  | ["gpar", c, p] =>
+    match c.toNat?, p.toNat? with
+    | some c, some p => exec st [] (upd fun h => setParent h c (some p))
+    | _, _ => bad
   | "ctor" :: ws =>
     match parseCtor ws with
     | some (m, ids) => exec st ids m
